@@ -36,11 +36,14 @@ var out = common.NewOut(os.Stdout)
 // ---- machines -------------------------------------------------------------------------------
 
 type machSpec struct {
-	P     int   // processors in the chain
-	Rsize uint8 // register size
-	Incs  []int // number of `inc` instructions of every processor
-	Two   bool  // two BM outputs (o0 unconnected, the chain ends in o1): used for the error path
-	Fail  int   // extra unconnected processors whose every step FAILS (`addf16` at a register size != 16)
+	P     int    // processors in the chain
+	Rsize uint8  // register size
+	Incs  []int  // number of `inc` instructions of every processor
+	Two   bool   // two BM outputs (o0 unconnected, the chain ends in o1): used for the error path
+	Fail  int    // extra unconnected processors whose every step FAILS (`addf16` at a register size != 16)
+	Dead  string // "" | "empty" | "noreg": one spare unconnected processor that cannot be initialised
+	// (empty program / no registers: procbuilder.VM.Init refuses it, the simulator treats it as halted)
+	DeadAt int // its processor index (0..P)
 }
 
 func (m machSpec) String() string {
@@ -51,15 +54,30 @@ func (m machSpec) String() string {
 	if m.Fail > 0 {
 		s += fmt.Sprintf(":fail%d", m.Fail)
 	}
+	if m.Dead != "" {
+		s += fmt.Sprintf(":%s%d", m.Dead, m.DeadAt)
+	}
 	return s
 }
 
 func parseMach(s string) (machSpec, error) {
 	var m machSpec
 	f := strings.Split(s, ":")
-	if len(f) == 5 && strings.HasPrefix(f[4], "fail") {
-		fmt.Sscanf(f[4], "fail%d", &m.Fail)
-		f = f[:4]
+	for len(f) > 4 {
+		x := f[len(f)-1]
+		switch {
+		case strings.HasPrefix(x, "fail"):
+			fmt.Sscanf(x, "fail%d", &m.Fail)
+		case strings.HasPrefix(x, "empty"):
+			m.Dead = "empty"
+			fmt.Sscanf(x, "empty%d", &m.DeadAt)
+		case strings.HasPrefix(x, "noreg"):
+			m.Dead = "noreg"
+			fmt.Sscanf(x, "noreg%d", &m.DeadAt)
+		default:
+			return m, fmt.Errorf("bad machine %q", s)
+		}
+		f = f[:len(f)-1]
 	}
 	if len(f) != 4 || f[0] != "chain" {
 		return m, fmt.Errorf("bad machine %q", s)
@@ -105,7 +123,42 @@ func (m machSpec) build() (*bondmachine.Bondmachine, error) {
 		bm.Add_output()
 		last = "o1"
 	}
+	// processor index of chain core j (a spare core that cannot be initialised may sit in between)
+	deadAt := -1
+	if m.Dead != "" {
+		deadAt = m.DeadAt
+		if deadAt > m.P {
+			deadAt = m.P
+		}
+	}
+	pid := func(j int) int {
+		if deadAt >= 0 && j >= deadAt {
+			return j + 1
+		}
+		return j
+	}
+	nproc := 0
+	addDead := func() error {
+		d := new(procbuilder.Machine)
+		d.Arch.Rsize = m.Rsize
+		d.Arch.Modes = []string{"ha"}
+		d.Arch.R, d.Arch.N, d.Arch.M, d.Arch.L, d.Arch.O = 2, 0, 0, 2, 5 // no ports: nothing is moved into it
+		if m.Dead == "noreg" {
+			d.Arch.R = 0
+		}
+		d.Arch.Op = opsByName("nop")
+		// no program: procbuilder.VM.Init returns an error and leaves the register file nil
+		bm.Domains = append(bm.Domains, d)
+		_, err := bm.Add_processor(nproc)
+		nproc++
+		return err
+	}
 	for i := 0; i < m.P; i++ {
+		if i == deadAt {
+			if err := addDead(); err != nil {
+				return nil, err
+			}
+		}
 		d := new(procbuilder.Machine)
 		d.Arch.Rsize = m.Rsize
 		d.Arch.Modes = []string{"ha"}
@@ -118,7 +171,13 @@ func (m machSpec) build() (*bondmachine.Bondmachine, error) {
 		}
 		d.Program = p
 		bm.Domains = append(bm.Domains, d)
-		if _, err := bm.Add_processor(i); err != nil {
+		if _, err := bm.Add_processor(nproc); err != nil {
+			return nil, err
+		}
+		nproc++
+	}
+	if deadAt == m.P {
+		if err := addDead(); err != nil {
 			return nil, err
 		}
 	}
@@ -136,16 +195,26 @@ func (m machSpec) build() (*bondmachine.Bondmachine, error) {
 		}
 		d.Program = p
 		bm.Domains = append(bm.Domains, d)
-		if _, err := bm.Add_processor(m.P + i); err != nil {
+		if _, err := bm.Add_processor(nproc); err != nil {
 			return nil, err
 		}
+		nproc++
 	}
-	bm.Add_bond([]string{"i0", "p0i0"})
+	bm.Add_bond([]string{"i0", fmt.Sprintf("p%di0", pid(0))})
 	for i := 0; i+1 < m.P; i++ {
-		bm.Add_bond([]string{fmt.Sprintf("p%do0", i), fmt.Sprintf("p%di0", i+1)})
+		bm.Add_bond([]string{fmt.Sprintf("p%do0", pid(i)), fmt.Sprintf("p%di0", pid(i+1))})
 	}
-	bm.Add_bond([]string{fmt.Sprintf("p%do0", m.P-1), last})
+	bm.Add_bond([]string{fmt.Sprintf("p%do0", pid(m.P-1)), last})
 	return bm, nil
+}
+
+// total number of processors (= workers a launch starts)
+func (m machSpec) total() int {
+	n := m.P + m.Fail
+	if m.Dead != "" {
+		n++
+	}
+	return n
 }
 
 func (m machSpec) expect(in int) int {
@@ -350,7 +419,10 @@ func runBatch(id int, b batch, rng *common.Rng) (string, bool) {
 			if err := vm.Init(); err != nil {
 				return "", false
 			}
-			vm.Launch_processors(nil)
+			if err := vm.Launch_processors(nil); err != nil {
+				ok = false // (a careful caller still shuts the VM down, below)
+				ticks = 0
+			}
 			for t := 0; t < ticks; t++ {
 				if _, err := vm.Step(nil); err != nil {
 					ok = false
@@ -400,7 +472,7 @@ func runBatch(id int, b batch, rng *common.Rng) (string, bool) {
 		return "", false
 	}
 	return fmt.Sprintf("B id=%d mode=%s n=%d k=%d P=%d ticks=%d fn=%s shut=%s mach=%s",
-		id, b.Mode, b.N, b.K, b.M.P+b.M.Fail, ticks, fn, shut, b.M.String()), ok
+		id, b.Mode, b.N, b.K, b.M.total(), ticks, fn, shut, b.M.String()), ok
 }
 
 func measure(id int, b batch, rng *common.Rng) {
@@ -460,6 +532,14 @@ func genFailMach(rng *common.Rng, maxP int) machSpec {
 	return m
 }
 
+// genDeadMach: a chain plus one spare processor that cannot be initialised, at a random index
+func genDeadMach(rng *common.Rng, maxP int) machSpec {
+	m := genMach(rng, maxP)
+	m.Dead = []string{"empty", "noreg"}[rng.Intn(2)]
+	m.DeadAt = rng.Intn(m.P + 1)
+	return m
+}
+
 func genMach(rng *common.Rng, maxP int) machSpec {
 	m := machSpec{P: 1 + rng.Intn(maxP), Rsize: []uint8{8, 16, 32}[rng.Intn(3)]}
 	for i := 0; i < m.P; i++ {
@@ -494,6 +574,12 @@ func runAll(tier string) {
 		next(batch{Mode: "par", N: 25, K: 2 + rng.Intn(4), M: genFailMach(rng, 3)})
 		next(batch{Mode: "fit", N: 10, M: genFailMach(rng, 2)})
 		next(batch{Mode: "raw", N: 5, M: genFailMach(rng, 2)})
+		// machines with a spare processor that cannot be initialised (a call may fail, never leak)
+		next(batch{Mode: "seq", N: 10, M: genDeadMach(rng, 3)})
+		next(batch{Mode: "par", N: 10, K: 2 + rng.Intn(4), M: genDeadMach(rng, 3)})
+		next(batch{Mode: "fit", N: 5, M: genDeadMach(rng, 2)})
+		next(batch{Mode: "raw", N: 3, M: genDeadMach(rng, 2)})
+		next(batch{Mode: "seqerr", N: 2, M: genDeadMach(rng, 2)})
 		next(batch{Mode: "seqerr", N: 1 + rng.Intn(5), M: genMach(rng, 3)})
 		next(batch{Mode: "fit", N: 1, M: genMach(rng, 3)})
 		next(batch{Mode: "fit", N: 10, M: genMach(rng, 3)})
